@@ -20,6 +20,11 @@ package sqlx
 //@   ensures [begin-fails] ret(b, 1) != nil ==> calls(fn) == 0 && calls(Commit) == 0 && calls(Rollback) == 0 && err == ret(b, 1)
 //@   ensures [commit-iff-nil] ret(b, 1) == nil && !panicked(fn) && ret(fn) == nil ==> calls(tx.Commit) == 1 && calls(tx.Rollback) == 0 && err == ret(tx.Commit)
 //@   ensures [rollback-on-error] ret(b, 1) == nil && !panicked(fn) && ret(fn) != nil ==> calls(tx.Rollback) == 1 && calls(tx.Commit) == 0 && err != nil
+// "otherwise rolls back and returns the function's error": exactly that error when the rollback succeeds, and an
+// error that still WRAPS it (errors.Is / As keep working) together with the rollback's own when the rollback fails too
+//@   replay-for functions-error-survives-a-failed-rollback sqlx_rollback_fails
+//@   ensures [functions-error-returned] ret(b, 1) == nil && !panicked(fn) && ret(fn) != nil && ret(tx.Rollback) == nil ==> err == ret(fn)
+//@   ensures [functions-error-survives-a-failed-rollback] ret(b, 1) == nil && !panicked(fn) && ret(fn) != nil && ret(tx.Rollback) != nil ==> calls(fmt.Errorf) == 1 && err == ret(fmt.Errorf) && arg(fmt.Errorf, 0) == "事务失败了：%w，回滚也失败了：%w" && len(arg(fmt.Errorf, 1)) == 2 && arg(fmt.Errorf, 1)[0] == ret(fn) && arg(fmt.Errorf, 1)[1] == ret(tx.Rollback)
 //@   ensures [rollback-on-panic] ret(b, 1) == nil && panicked(fn) ==> calls(tx.Rollback) == 1 && calls(tx.Commit) == 0 && err != nil
 //@   ensures [nil-means-one-commit] err == nil ==> calls(Commit) == 1 && calls(Rollback) == 0
 //@   ensures [non-nil-means-no-commit-or-failed-commit] err != nil && ret(b, 1) == nil ==> calls(Commit) + calls(Rollback) == 1
